@@ -79,7 +79,11 @@ macro_rules! aw_float {
         impl AW for $t {
             const NAME: &'static str = stringify!($t);
             const IS_FLOAT: bool = true;
-            fn alphabet(_len: usize) -> Vec<Self> { vec![0.0, 1.0, 2.0, 0.3, 1e-30, 1e30, -1.0, <$t>::NAN, -0.0, <$t>::INFINITY] }
+            fn alphabet(len: usize) -> Vec<Self> {
+                // the per-length maximum MAX/len (documented as the largest accepted weight) and its predecessor
+                let m = <$t>::MAX / (len.max(1) as $t);
+                vec![0.0, 1.0, 2.0, 0.3, 1e-30, 1e30, -1.0, <$t>::NAN, -0.0, <$t>::INFINITY, m, m * (1.0 - <$t>::EPSILON)]
+            }
             fn as_f(&self) -> f64 { *self as f64 }
             fn as_i(&self) -> i128 { 0 }
             fn max_f() -> f64 { <$t>::MAX as f64 }
@@ -162,7 +166,12 @@ where
             let total: f64 = ws.iter().map(|w| w.as_f()).sum();
             for i in 0..n {
                 let ok = if W::IS_FLOAT { (rec[i].as_f() - ws[i].as_f()).abs() <= n as f64 * 8.0 * W::eps() * total.max(ws[i].as_f()) } else { rec[i] == ws[i] };
-                if !ok { viol("weights", format!("weights() = {:?} does not reconstruct the input", rec)); return; }
+                if !ok {
+                    // float vectors holding the per-length maximum are keyed separately (w * len is not representable)
+                    let at_max = W::IS_FLOAT && ws.iter().any(|w| w.as_f() >= 0.999 * W::max_f() / n as f64);
+                    viol(if at_max { "weights|per-length-maximum" } else { "weights" }, format!("weights() = {:?} does not reconstruct the input", rec));
+                    return;
+                }
             }
         }
     }
